@@ -3,7 +3,7 @@
 cd /verif
 : > seeded/RESULTS.txt
 run() { ./seedrun.sh "$1" "$2" 2>&1 | grep -v WARNING >> seeded/RESULTS.txt; }
-for d in seeded/C*-m* seeded/C*-w2m* seeded/C*-w3m* seeded/C*-w4m* seeded/C*-w5m* seeded/C*-w6m* seeded/C*-w7m* seeded/C*-w8m* seeded/C*-w9m* seeded/C*-w10m* seeded/C*-w11m*; do
+for d in seeded/C*-m* seeded/C*-w2m* seeded/C*-w3m* seeded/C*-w4m* seeded/C*-w5m* seeded/C*-w6m* seeded/C*-w7m* seeded/C*-w8m* seeded/C*-w9m* seeded/C*-w10m* seeded/C*-w11m* seeded/C*-w12m*; do
   id=$(basename $d); prop=${id%%-*}
   run $id $prop
 done
